@@ -277,7 +277,12 @@ def _spawn(prop, part, shard, nshards, tier, seed, out, scale):
            '--scale', repr(scale)]
     env = dict(os.environ)
     env['VERIF_SEED'] = str(seed)
-    return subprocess.Popen(cmd, env=env, stdout=subprocess.PIPE, stderr=subprocess.STDOUT)
+    # output goes to a file: a PIPE that nobody drains blocks a chatty worker (elfi logs warnings) for ever
+    logf = open(out + '.log', 'wb')
+    p = subprocess.Popen(cmd, env=env, stdout=logf, stderr=subprocess.STDOUT)
+    p._verif_log = out + '.log'
+    logf.close()
+    return p
 
 
 def parent(prop, tier, seed, scale=1.0, only_parts=None, max_procs=None):
@@ -350,7 +355,12 @@ def parent(prop, tier, seed, scale=1.0, only_parts=None, max_procs=None):
             if rc is None:
                 still.append((proc, pn, k, out))
                 continue
-            text = proc.stdout.read().decode(errors='replace')
+            try:
+                with open(proc._verif_log, 'rb') as lf:
+                    lf.seek(max(0, os.path.getsize(proc._verif_log) - 20000))
+                    text = lf.read().decode(errors='replace')
+            except OSError:
+                text = ''
             try:
                 results.append(json.load(open(out)))
             except Exception:
